@@ -14,7 +14,7 @@ func finalShutdown(sc *simScenario, hist []simEvent) []simViolation {
 	if sc.Final != "shutdown" {
 		return nil
 	}
-	s, err := replayHist(sc, hist)
+	s, err := replayExpected(sc, hist)
 	defer s.close()
 	if err != nil {
 		return nil
